@@ -24,6 +24,25 @@ def obligations(ctx):
                                  desc="real transform code on the real table, all 2m inputs symbolic: output j is the linear form "
                                       "sum_k c_jk x_k; c_jk vs omega^((1+4 bitrev j)k) and rounding radii; sound unit-input alarm rule"))
     obs += layout_obs(ctx)
+    obs += schedule_obs(ctx)
+    return obs
+
+
+def schedule_obs(ctx):
+    """pass schedule of the reim drivers, AVX2 vs reference, for every m = 32..65536 (kernels replaced by logging stand-ins)"""
+    obs = []
+    libs = ["reim/reim_fft_ref.c", "reim/reim_ifft_ref.c", "reim/reim_fft_avx2.c", "reim/reim_ifft_avx2.c", "commons_private.c", "commons.c"]
+    fwd = ["reim_fft16_ref", "reim_twiddle_fft_ref", "reim_bitwiddle_fft_ref", "reim_fft16_avx_fma", "reim_twiddle_fft_avx2_fma", "reim_bitwiddle_fft_avx2_fma"]
+    inv = ["reim_ifft16_ref", "reim_invtwiddle_ifft_ref", "reim_invbitwiddle_ifft_ref", "reim_ifft16_avx_fma", "reim_invtwiddle_ifft_avx2_fma", "reim_invbitwiddle_ifft_avx2_fma"]
+    for kind in (0, 1):
+        for lg in range(5, 17):
+            m = 1 << lg
+            o = core.Ob("schedule/%s/avx2-vs-ref/m=%d" % (KN[kind], m), "sched.c", "h_sched", {"KIND": kind, "M": m}, libs, unwind=max(m // 16 + 40, 200),
+                        flags=[], family="%s driver schedule" % KN[kind], timeout=900, mem_gb=16,
+                        desc="the real reference and AVX2 drivers executed with the pass kernels replaced by logging stand-ins: the AVX2 driver issues exactly the passes of the "
+                             "reference driver (kind, h, data slice, twiddle slice), for this m")
+            o.stubs = fwd if kind == 0 else inv
+            obs.append(o)
     return obs
 
 
